@@ -189,6 +189,7 @@ PROPS["C17"] = {
     "units": [
         rapid("auth-matrix", "webserver", "TestVerif_C17_AuthMatrix", 300, 2500),
         rapid("update-preservation", "webserver", "TestVerif_C17_UpdatePreservation", 150, 1200),
+        rapid("racing-updates", "webserver", "TestVerif_C17_RacingUpdates", 40, 300, shards=8, quick_shards=4),
     ],
     "technique": "property-based testing (rapid) of the real HTTP server over raw TCP against an independent authorisation model; marker scan; structural diff of the on-disk JSON",
     "assumptions": ["one server per test process (package-level mux and directories); cases use fresh group names"],
